@@ -1,4 +1,5 @@
 import Driver.C04
+import Driver.C02Chan
 import Driver.C01_Term
 import Driver.C19W
 import Driver.C11_Tags
@@ -33,6 +34,7 @@ partial def loop (h : IO.FS.Stream) (out : IO.FS.Stream) (f : String → String)
   loop h out f
 
 def modes : List (String × (String → String)) := [
+  ("c02x", C02Chan.handle),
   ("c01t", C01T.handle),
   ("c19w", C19W.handle),
   ("c11tag", C11Tags.handle),
